@@ -19,7 +19,8 @@ type Entity struct {
 	description  *model.DescriptionType
 	fIdGenerator func() uint
 
-	muxGenerator sync.Mutex
+	muxGenerator   sync.Mutex
+	muxDescription sync.RWMutex
 }
 
 var _ api.EntityInterface = (*Entity)(nil)
@@ -52,10 +53,16 @@ func (r *Entity) EntityType() model.EntityTypeType {
 }
 
 func (r *Entity) Description() *model.DescriptionType {
+	r.muxDescription.RLock()
+	defer r.muxDescription.RUnlock()
+
 	return r.description
 }
 
 func (r *Entity) SetDescription(d *model.DescriptionType) {
+	r.muxDescription.Lock()
+	defer r.muxDescription.Unlock()
+
 	r.description = d
 }
 
